@@ -58,3 +58,16 @@ pub fn site_file(loc: &str) -> String {
     let f = loc.rsplit_once(':').map(|x| x.0).unwrap_or(loc);
     match f.find("/src/") { Some(i) => f[i + 5..].to_string(), None => f.to_string() }
 }
+
+/// coarse class of a panic message (part of finding keys, so that a new kind of panic in a file with a known one is still reported)
+pub fn panic_kind(msg: &str) -> &'static str {
+    if msg.contains("not yet implemented") || msg.contains("not implemented") { "todo" }
+    else if msg.starts_with("assertion") { "assert" }
+    else if msg.contains("called `Result::unwrap()`") || msg.contains("called `Option::unwrap()`") { "unwrap" }
+    else if msg.contains("index out of bounds") || msg.contains("out of range") { "index" }
+    else if msg.contains("overflow") || msg.contains("divide by zero") { "arith" }
+    else if msg.contains("stack") { "stack" }
+    else { "explicit" }
+}
+/// `<file>/<panic kind>`
+pub fn site(loc: &str, msg: &str) -> String { format!("{}/{}", site_file(loc), panic_kind(msg)) }
